@@ -86,9 +86,13 @@ void ezc3d::DataNS::AnalogsNS::SubFrame::channel(const ezc3d::DataNS::AnalogsNS:
     if (idx == SIZE_MAX)
         _channels.push_back(channel);
     else{
-        if (idx >= nbChannels())
+        if (idx >= nbChannels()){
+            // the argument may be an element of this very container, which resize() moves
+            const ezc3d::DataNS::AnalogsNS::Channel copy(channel);
             _channels.resize(idx+1);
-        _channels[idx] = channel;
+            _channels[idx] = copy;
+        } else
+            _channels[idx] = channel;
     }
 }
 
